@@ -100,7 +100,7 @@ Proof.
     { rewrite S1, S2. unfold shared in H. inversion H. rewrite Hcx. reflexivity. }
     rewrite (sh_cx _ _ HS). sh_step HS.
   - destruct (cclosed (cx s y)); [|destruct (negb (is_pipe (cx s y)))]; sh_step H.
-  - sh_step H.
+  - assert (wk s = wk s') as -> by (unfold shared in H; inversion H; reflexivity). sh_step H.
   - sh_step H.
 Qed.
 
